@@ -358,3 +358,124 @@ reg(Zoo(
     ),
     menu=[('pe', 'e1', 'local'), ('eq', 'e4', 'local')],
 ))
+
+
+# ------------------------------------------------------------------------------------------------
+# common-subset variants for cross-configuration comparison (C13): no machine-local internal tables
+# and no action+guard on exit-point rows, so that back11 compiles the very same description
+def reg_common(name):
+    z = make_variant(ZOO[name], 'b11v')
+    z.name = name + '_c'
+    z.variant = 'full'
+    ZOO[z.name] = z
+    return z
+
+
+for _n in ('flat', 'hier2', 'ortho', 'entry'):
+    reg_common(_n)
+
+
+# defer_c: state-property deferral only (backmp11 documents a different schedule for action deferral)
+def _defer_c():
+    import copy
+    z = copy.deepcopy(ZOO['defer'])
+    z.root.rows = [r for r in z.root.rows if not r.defer]
+    z.name = 'defer_c'
+    z.finalize()
+    ZOO[z.name] = z
+
+
+_defer_c()
+
+# ------------------------------------------------------------------------------------------------
+# flags: user flags on simple states, on the submachine state, on substates; 2 regions
+reg(Zoo(
+    name='flags',
+    events=['e1', 'e2', 'e3'],
+    flags=['F1', 'F2', 'F3'],
+    root=Machine(
+        'FRoot',
+        states=[
+            S('A', flags=['F1']), S('B'),
+            S('FSub', kind='sub', flags=['F2'], sub=Machine(
+                'FSub',
+                states=[S('U', flags=['F3']), S('V'), S('W'), S('Z', flags=['F1'])],
+                initial=['U', 'W'],
+                rows=[
+                    R('U', 'e3', 'V', a=False, g=False), R('V', 'e3', 'U', a=False, g=False),
+                    R('W', 'e1', 'Z'), R('Z', 'e1', 'W', a=False, g=False),
+                ],
+            )),
+            S('P', flags=['F1']), S('Q', flags=['F3']),
+        ],
+        initial=['A', 'P'],
+        rows=[
+            R('A', 'e1', 'B', a=False, g=False),
+            R('B', 'e1', 'FSub'),
+            R('FSub', 'e2', 'A', a=False),
+            R('P', 'e3', 'Q', a=False, g=False),
+            R('Q', 'e3', 'P'),
+        ],
+    ),
+))
+
+
+# ------------------------------------------------------------------------------------------------
+# sw_<policy>: hier2 (common subset) under each active-state-switch policy, at every level
+def _switch_variants():
+    import copy
+    for pol in ('after_entry', 'after_exit', 'after_action', 'before'):
+        z = copy.deepcopy(ZOO['hier2_c'])
+        for m in z.machines():
+            m.switch = pol
+        z.name = 'sw_' + pol
+        z.finalize()
+        ZOO[z.name] = z
+        f = copy.deepcopy(ZOO['flags'])
+        for m in f.machines():
+            m.switch = pol
+        f.name = 'flags_' + pol
+        f.finalize()
+        ZOO[f.name] = f
+
+
+_switch_variants()
+
+# ------------------------------------------------------------------------------------------------
+# evt: event hierarchy eb <- em <- el, Kleene rows, exact rows competing by position, also across a
+# submachine level; one state defers the leaf event
+reg(Zoo(
+    name='evt',
+    events=['eb', 'em', 'el', 'ex', 'ey'],
+    bases={'em': 'eb', 'el': 'em'},
+    configs=['b', 'bq', 'm'],
+    root=Machine(
+        'KRoot',
+        states=[
+            S('K1'), S('K2'),
+            S('KSub', kind='sub', sub=Machine(
+                'KSub',
+                states=[S('J1'), S('J2')],
+                initial=['J1'],
+                rows=[
+                    R('J1', 'em', 'J2'),
+                    R('J2', '*', 'J1'),
+                ],
+            )),
+            S('K3', defer=['el']),
+        ],
+        initial=['K1'],
+        rows=[
+            R('K1', 'eb', 'K2'),                     # matches eb, em, el (tried last)
+            R('K1', '*', None),                      # Kleene internal row
+            R('K1', 'em', None),                     # matches em, el
+            R('K1', 'el', 'K3', a=False),            # exact leaf row (tried first)
+            R('K2', '*', 'K1'),
+            R('K2', 'ex', 'KSub', a=False, g=False),
+            R('KSub', 'eb', 'K1'),
+            R('KSub', '*', None),
+            R('K3', 'ey', 'K1', a=False, g=False),
+            R('K3', 'ex', 'K2', a=False, g=False),
+        ],
+    ),
+))
